@@ -11,7 +11,8 @@ use std::net::{IpAddr, Ipv4Addr, Ipv6Addr, SocketAddr, SocketAddrV4, SocketAddrV
 
 pub fn gen_fam(c: &mut Choices) -> FamId {
     // k256 most often (shrinks towards it), every family represented
-    const W: [FamId; 10] = [
+    const W: [FamId; 11] = [
+        FamId::Wide,
         FamId::K256,
         FamId::K256,
         FamId::Libsecp,
@@ -28,6 +29,17 @@ pub fn gen_fam(c: &mut Choices) -> FamId {
 
 pub fn gen_keys(c: &mut Choices, fam: FamId) -> Vec<Secret> {
     let n = 1 + c.below(3);
+    if fam == FamId::Wide {
+        // the last byte of the secret selects the signature length (64 + 7 * (b % 37) + 0..6)
+        return (0..n)
+            .map(|i| {
+                let mut s = [0u8; 32];
+                s[0] = 1 + i as u8;
+                s[31] = c.u8();
+                Secret(s)
+            })
+            .collect();
+    }
     let p = pool().of(fam.scheme());
     let mut v: Vec<Secret> = Vec::new();
     for _ in 0..n {
@@ -117,7 +129,18 @@ fn well_typed_tval(c: &mut Choices, key: &[u8], fam: FamId) -> Option<TVal> {
         b"ip6" => TVal::Bytes(gen_ip6(c).to_vec()),
         b"secp256k1" => {
             let s = *c.pick(pool().of(Scheme::Secp));
-            TVal::Bytes(crypto::secp_pk_from_secret(&s).unwrap().to_vec())
+            let pk = crypto::secp_pk_from_secret(&s).unwrap();
+            match c.below(5) {
+                0 => {
+                    // 65-byte SEC1 forms of a valid point: uncompressed (04) and hybrid (06 / 07)
+                    let u = crypto::secp_uncompressed(&pk).unwrap();
+                    let tag = *c.pick(&[4u8, 4, 6, 7, if u[63] & 1 == 1 { 7 } else { 6 }]);
+                    let mut v = vec![tag];
+                    v.extend_from_slice(&u);
+                    TVal::Bytes(v)
+                }
+                _ => TVal::Bytes(pk.to_vec()),
+            }
         }
         b"ed25519" => {
             let s = *c.pick(pool().of(Scheme::Ed));
